@@ -151,7 +151,7 @@ def run_case(rng, idx, tier, lane, ctx):
         horizon = S.choose_horizon(rng, ref, x0, theta, targets=(10, 40, 120))
         for exact in (True, False):
             for gridded in (False, True):
-                cfg = {"exact": exact, "n": rng.randint(1, 2), "seed": np_seed(rng), "pre_tau": None, "epsilon": None, "gridded": gridded}
+                cfg = {"exact": exact, "n": rng.randint(1, 2), "seed": np_seed(rng), "pre_tau": None, "epsilon": None, "gridded": gridded, "refused_first": rng.random() < 0.2}
                 if not exact and rng.random() < 0.4:
                     cfg["pre_tau"] = rng.choice([0.02, 0.1, 0.3]) * horizon
                 cfg["hostile"] = rng.random() < 0.35
